@@ -361,7 +361,12 @@ def sort_rule(R, P):
     ok = a[0] == "list->data" and cnt_ok and a[2] == "list->item_size" and a[3] == "compare_fn"
     R.check(ok, "RANGE", "sort:geometry", where(f, q[0]), "qsort(list->data, length, list->item_size, compare_fn)",
             "aws_array_list_sort hands qsort (%s): the element stride / count is not the list's own, so elements of any other size are torn apart or compared at the wrong addresses" % ", ".join(a))
-    gs = [f.show(c_) for c_, p_, b_ in RU.guards(f, q[0]) if p_]
+    # (`if (list->data) qsort(..)` or `if (!list->data) return; qsort(..)`: the sort is reached only with data != NULL)
+    gs = []
+    for c_, p_, b_ in RU.guards(f, q[0]):
+        t_ = RU.cmp_norm(f, c_, p_)
+        if t_ and t_[1] == "!=" and (t_[2] is None or f.is_const(RU.uncast(f, t_[2])) == 0):
+            gs.append(f.show(RU.uncast(f, t_[0]), alias=True))
     R.check(any("list->data" in g_ for g_ in gs), "RANGE", "sort:only-with-storage", where(f, q[0]), "sorted only when the list has storage")
 
 
@@ -377,6 +382,8 @@ def static_mode(R, fns):
             for g in gs:
                 if g and g[1] == "!=" and (g[2] is None or f.is_const(RU.uncast(f, g[2])) == 0):
                     x = RU.uncast(f, g[0])
+                    if x["k"] == "var":
+                        x = RU.uncast(f, RU.origin(f, x)) or x  # a local that caches the field
                     if x["k"] == "member" and x["f"] == "alloc":
                         ok = True
             R.check(ok, "STATIC-MODE", "%s:%s" % (f.name, e.node["callee"]), where(f, e), "reached only under list->alloc != NULL",
